@@ -65,7 +65,12 @@ def build_grid(rows, cols, wov, ov_ints=False):
     ov = {}
     for k, vs in wov:
         ov[k] = vs[0] if (ov_ints and len(vs) == 1) else set(vs)
-    g = Grid(rows, cols, overlapping=ov if wov else None)
+    if (rows + cols + len(wov)) % 2:
+        # the table arrives through the public setter after construction (first a different one)
+        g = Grid(rows, cols, overlapping={1: {1, 2, 3}, 2: {1, 2, 3}, 3: {1, 2, 3}})
+        g.overlapping = ov if wov else {}
+    else:
+        g = Grid(rows, cols, overlapping=ov if wov else None)
     g.reset()
     return g
 
